@@ -140,4 +140,20 @@ def pending (cfg : Cfg) (all : List MFile) (revs : List Revision) : Result :=
     else if !migrations.isEmpty then ⟨none, normal cfg migrations revs r0 last⟩
     else ⟨none, .error .noPending⟩
 
+/-- `(*Executor).ExecuteTo(version)`: the files it hands to `exec`. `none` = "migration with version ... not
+found". When a checkpoint file stands behind the target, `Pending` is asked about the directory cut after the
+target; otherwise its answer is cut after the target. -/
+def executeTo (cfg : Cfg) (all : List MFile) (revs : List Revision) (v : String) : Option (Except Err (List MFile)) :=
+  match lastIndex (fun f => f.version == v) all with
+  | none => none
+  | some idx =>
+    if (all.drop (idx + 1)).any (fun f => f.checkpoint) then some (pending cfg (all.take (idx + 1)) revs).out
+    else
+      match (pending cfg all revs).out with
+      | .error e => some (.error e)
+      | .ok p =>
+        match lastIndex (fun f => f.version == v) p with
+        | none => none
+        | some i => some (.ok (p.take (i + 1)))
+
 end Atlas.Pending
